@@ -88,6 +88,11 @@ func c01Jobs(tier string) []string {
 	add(base+",mtu=100,aw=2x24,bw=24,sack=1,b=2", 16)
 	add(base+",mtu=76,aw=48,bw=24,issa=4294967276,b=2", 16)
 	add("or=s,bw=,close=none,mtu=76,aw=24,b=3", 16)
+	add(base+",mtu=76,aw=2x48,b=2", 32)
+	add(base+",mtu=100,aw=96,sack=1,cc=cubic,b=2", 32)
+	add(base+",mtu=76,aw=4x24,read=end,b=2", 32)
+	add(base+",mtu=76,aw=200,rcvbuf=100,b=2", 32)
+	add("or=s,bw=24,close=none,mtu=76,aw=48,b=3", 32)
 	for _, j := range rawJobsC01(tier) {
 		jobs = append(jobs, j)
 	}
